@@ -10,7 +10,14 @@ Hardening round 3: the settings may live in an OBJECT of another class of the mo
 declaration order, declared defaults, __post_init__ -, a class with its own __init__, collections.namedtuple, SimpleNamespace, TypedDict), built directly or by a class / static method
 (alternative constructor) or module function; its methods, coroutine methods and properties are followed like helpers of the wrapper. The attempt's exception may be classified by
 `isinstance` (in one broad handler or a helper) instead of by except clauses: decided in the same parsed library hierarchy. Registered runners are classified by what they ARE (instance of
-the wrapper class or a subclass, through an alias or a factory function) instead of by the spelling `Retry(...)`."""
+the wrapper class or a subclass, through an alias or a factory function) instead of by the spelling `Retry(...)`.
+
+Hardening round 4: WHAT the attempt loop runs over is a value computed at the loop, not the spelling `range(...)`: a range, itertools.count() (no end), enumerate of those, chosen in the loop
+header, into a local before the loop, by a conditional expression or by a helper; the target may be a tuple. Where the attempt numbers have no end in sight the call is bounded all the same
+if at some attempt every outcome class ends it (the last-attempt test alone enforces the bound): that attempt is searched among the first _SEARCH ones on the same evaluated iterations.
+A `while` loop that keeps its own count is evaluated by REPLAYING the earlier iterations (with outcomes that are retried) before the one that is judged, so the counter - wherever it is
+advanced, whichever way it counts - is part of the evaluation. (Not decided for these two shapes: a cap beyond the first _SEARCH attempts.) O16.6 follows super().params() and gives a verdict
+"does not forward" only when every key of the returned mapping is visible."""
 from __future__ import annotations
 
 import ast
@@ -43,11 +50,17 @@ RAISED = [
     ("KeyError (not a transport error)", "KeyError", None, False),
 ]
 
+_SEARCH = 8  # attempts among which a bound that only the last-attempt test enforces is searched (the representative parameter sets ask for at most 6 attempts)
+
 RETRY_KEYS = {"retries", "retry-until-success", "retry-wait-period", "retry-on-timeout", "retry-on-error"}
 
 
 # ------------------------------------------------------------------------------------------------------------------------------------------------------
 # a small statement sequencer over minieval (local helper; a candidate for sa/): straight-line code, if, try/except/else/finally, return, raise, helper calls
+
+class Unrecognised(Exception):
+    """a construct was located but its shape is none of the recognised ones: reported as 'not recognised', never as a verdict"""
+
 
 class _Signal(Exception):
     pass
@@ -102,6 +115,45 @@ class _Obj(Record):
     def __init__(self, ci, **fields):
         super().__init__(**fields)
         self.ci, self.frozen, self.is_tuple = ci, False, False
+
+
+class _Count:
+    """the value of itertools.count(start, step): attempt numbers without end"""
+
+    def __init__(self, start=0, step=1):
+        self.start, self.step = start, step
+
+
+class _Enum:
+    """the value of enumerate(<attempt numbers>, start)"""
+
+    def __init__(self, seq, start=0):
+        self.seq, self.start = seq, start
+
+
+class _Seq:
+    """what an attempt loop `for <target> in <iterable>` runs over, as a value: n elements (None: without end), at(i) the element of iteration index i"""
+
+    def __init__(self, n, at):
+        self.n, self.at = n, at
+
+
+def _as_seq(v):
+    if isinstance(v, range):
+        n = max(0, (v.stop - v.start + v.step - 1) // v.step) if v.step > 0 else max(0, (v.start - v.stop - v.step - 1) // -v.step)  # (len() overflows beyond sys.maxsize)
+        return _Seq(n, lambda i: v.start + i * v.step)
+    if isinstance(v, _Count):
+        return _Seq(None, lambda i: v.start + i * v.step)
+    if isinstance(v, (list, tuple)):
+        return _Seq(len(v), lambda i: v[i])
+    if isinstance(v, _Enum):
+        inner = _as_seq(v.seq)
+        return _Seq(inner.n, lambda i: (v.start + i, inner.at(i)))
+    raise CannotEval(f"the attempt loop runs over a {type(v).__name__}: neither a range, nor a counter, nor a literal sequence")
+
+
+def _is_int(v):
+    return isinstance(v, int) and not isinstance(v, bool)
 
 
 _OPAQUE = object()
@@ -235,6 +287,17 @@ class Interp:
                     base = mev(n.args[0], env) if n.args else {}
                     if isinstance(base, dict):
                         return ({**base, **{k.arg: mev(k.value, env) for k in n.keywords}},)
+                if f.id == "range" and 1 <= len(n.args) <= 3 and not n.keywords:
+                    # the attempt numbers as a VALUE: the loop may run over a local / a helper result / a conditional expression that was chosen earlier
+                    args = [mev(a, env) for a in n.args]
+                    if all(_is_int(a) for a in args) and not (len(args) == 3 and args[2] == 0):
+                        return (range(*args),)
+                    raise CannotEval(f"range arguments {args}")
+                if f.id == "enumerate" and 1 <= len(n.args) <= 2 and all(k.arg == "start" for k in n.keywords) and len(n.args) + len(n.keywords) <= 2:
+                    vals = [mev(a, env) for a in n.args] + [mev(k.value, env) for k in n.keywords]
+                    if isinstance(vals[0], (range, _Count, list, tuple)) and all(_is_int(a) for a in vals[1:]):
+                        return (_Enum(*vals),)
+                    raise CannotEval(f"enumerate over {type(vals[0]).__name__}")
                 if f.id == "getattr" and len(n.args) in (2, 3) and not n.keywords:
                     obj, name = mev(n.args[0], env), mev(n.args[1], env)
                     if isinstance(obj, Record) and isinstance(name, str):
@@ -258,6 +321,14 @@ class Interp:
                         if unknown:
                             raise CannotEval(f"isinstance against {unknown[0]}, which is not in the parsed library hierarchy")
                         return (self.H.catches(names, cur.cls),)
+            if self.full_name(f, env) == "itertools.count" and len(n.args) + len(n.keywords) <= 2 and all(k.arg in ("start", "step") for k in n.keywords):
+                got = dict(zip(("start", "step"), [mev(a, env) for a in n.args]))
+                if any(k.arg in got for k in n.keywords):
+                    raise CannotEval("itertools.count(): argument given twice")
+                got.update({k.arg: mev(k.value, env) for k in n.keywords})
+                if all(_is_int(a) for a in got.values()) and got.get("step", 1) != 0:
+                    return (_Count(**got),)
+                raise CannotEval(f"itertools.count arguments {got}")
             if self.full_name(f, env) == "asyncio.sleep":
                 vals = [mev(a, env) for a in n.args] + [mev(k.value, env) for k in n.keywords]
                 return (_Coro(lambda: self.sleeps.append((vals, n))),)
@@ -797,10 +868,11 @@ def run(chk):
         "(12 exception classes placed in the real, parsed library hierarchy, and 5 kinds of return value) at a non-last and at the last attempt under each combination of "
         "(retry-on-timeout, retry-on-error); the handler that Python would select is located through the hierarchy; the outcome (next attempt after one awaited sleep of the configured period / "
         "the attempt's own exception / the attempt's own result) must equal the documented classification. Also the attempt bound (retries + 1 iterations, unbounded with retry-on-error forced "
-        "under retry-until-success), the parameter defaults, that the caller's parameter dict and the shared wrapper are left alone, which operations are wrapped and that their parameter "
+        "under retry-until-success; the attempt numbers are the VALUE the loop runs over - a range, an unbounded counter, a `while` loop replayed from its start), the parameter defaults, that the caller's parameter dict and the shared wrapper are left alone, which operations are wrapped and that their parameter "
         "sources hand the retry settings on."
     )
-    chk.not_decided = "timing of sleeps, behaviour of the delegate, operations wrapped by plugins."
+    chk.not_decided = ("timing of sleeps, behaviour of the delegate, operations wrapped by plugins; for a loop without a visible end of the attempt numbers (unbounded counter, `while`): "
+                       f"a cap on the attempts beyond the first {_SEARCH}.")
     R = rn.cls("Retry")
     call = rn.methods(R).get("__call__")
     if call is None:
@@ -867,9 +939,15 @@ def run(chk):
     L = next((lp for lp in (find_loop(s_) for s_ in sites) if lp is not None), None)
     if L is None:
         raise AnchorMissing("attempt loop around the delegate call")
-    if not (isinstance(L, ast.For) and isinstance(L.iter, ast.Call) and isinstance(L.iter.func, ast.Name) and L.iter.func.id == "range" and 1 <= len(L.iter.args) <= 3
-            and not L.iter.keywords and isinstance(L.target, ast.Name)):
-        raise AnchorMissing(f"the attempt loop is not `for <counter> in range(...)`: {short(L, 60)}")
+    # what the loop runs over is a VALUE computed at the loop (a range, an unbounded counter, chosen directly / into a local / by a helper): evaluated per world below, not read off the spelling
+    # A `while` loop keeps its own count: every evaluated attempt then REPLAYS the earlier iterations (with outcomes that are retried) from the state at the loop, so whatever the loop
+    # carries from one attempt to the next (the counter, wherever it is advanced) is part of the evaluation.
+    is_for = isinstance(L, ast.For)
+    if not isinstance(L, (ast.For, ast.While)):
+        raise AnchorMissing(f"the attempt loop is neither a `for` loop over attempt numbers nor a `while` loop: {short(L, 60)}")
+    target_names = {n.id for n in ast.walk(L.target) if isinstance(n, ast.Name)} if is_for else set()
+    if is_for and (not target_names or not all(isinstance(n, (ast.Name, ast.Tuple, ast.List)) for n in ast.walk(L.target) if not isinstance(n, ast.expr_context))):
+        raise AnchorMissing(f"the target of the attempt loop is not a local (or a tuple of locals): {short(L, 60)}")
     FL = source.enclosing_func(L)
     if FL is not call:
         # the loop lives in a helper: its result must be what __call__ returns
@@ -938,30 +1016,55 @@ def run(chk):
             raise CannotEval(f"the attempt loop is not reached for params={params}")
         finally:
             interp.stop_node = None
-        args = [interp.xev(a, w.env) for a in L.iter.args]
-        if not all(isinstance(a, int) and not isinstance(a, bool) for a in args):
-            raise CannotEval(f"range arguments {args}")
-        w.r = range(*args) if not (len(args) == 3 and args[2] <= 0) else None
-        if w.r is None:
-            raise CannotEval("descending attempt counter")
-        w.n = max(0, -(-(w.r.stop - w.r.start) // w.r.step))
-        w.unbounded = w.n >= sys.maxsize // 2  # sys.maxsize attempts, give or take an off-by-one that the bound obligation reports
+        w.seq = _as_seq(interp.xev(L.iter, w.env)) if is_for else _Seq(None, None)
+        w.fill, w.dead = [], None
+        if w.seq.n is not None and w.seq.n < sys.maxsize // 2:
+            w.n, w.unbounded = w.seq.n, False
+        else:
+            # no end of the attempt numbers in sight (an unbounded counter, sys.maxsize elements give or take an off-by-one, a `while` loop): the call is bounded all the same if at some
+            # attempt EVERY outcome ends it (the last-attempt test alone enforces the bound, the loop test fails afterwards); searched among the first attempts, on the same evaluated
+            # iterations as everything else
+            w.n, w.unbounded = sys.maxsize, True
+            for pos in range(_SEARCH):
+                if all(attempt(w, pos, ev_, probe=True).kind != "retry" for ev_ in probes()):
+                    w.n, w.unbounded = pos + 1, False
+                    break
         worlds[k] = w
         return w
 
     observed_calls = []
 
-    def attempt(w, pos, event, force=None):
+    def fill_to(w, pos):
+        """(`while` loop) outcomes for the attempts before iteration index pos that make the loop go on: the first retried one of a few retryable outcome classes, per world"""
+        if pos > _SEARCH:
+            raise CannotEval(f"attempt {pos + 1} of a `while` loop is beyond the {_SEARCH + 1} replayed attempts")
+        while len(w.fill) < pos:
+            i = len(w.fill)
+            if w.dead is not None:
+                raise CannotEval(f"attempt {w.dead + 1} is never reached: no outcome of attempt {w.dead} is retried")
+            for cand in probes()[:2] + [exc_event("elasticsearch.ConnectionTimeout", None), exc_event("elasticsearch.ApiError", 408)]:
+                if attempt(w, i, cand, probe=True).kind == "retry":
+                    w.fill.append(cand)
+                    break
+            else:
+                w.dead = i + 1
+
+    def attempt(w, pos, event, force=None, probe=False):
         """outcome of the attempt at iteration index pos of world w when the delegate produces `event`"""
         if not 0 <= pos < w.n:
             raise CannotEval(f"no attempt number {pos + 1}")
-        interp.reset()
-        interp.event, interp.force = event, force
+        if not is_for:
+            fill_to(w, pos)
         env = dict(w.env)
-        env[L.target.id] = w.r[pos]
-        final = not w.unbounded and pos == w.n - 1
         kept = dict(w.rec.fields)
         own = _own_objects(w.env.values())  # objects the call built before the loop: every evaluated iteration starts from their state at the loop
+
+        def goes_on():
+            """after an iteration that neither returned nor raised: is there another one?"""
+            if is_for:
+                return not (w.seq.n is not None and pos == w.seq.n - 1)  # (the attempt numbers end here: the iteration falls out of the loop)
+            interp.event = None
+            return bool(interp.xev(L.test, env))
 
         def run_(stmts):
             try:
@@ -975,9 +1078,24 @@ def run(chk):
                 return Out("raise" if r_.cls is not None else "raise-other")
 
         try:
+            if is_for:
+                interp.assign(L.target, w.seq.at(pos), env)
+            else:
+                for i in range(pos + 1):
+                    interp.reset()
+                    interp.event, interp.force = None, None
+                    if not interp.xev(L.test, env):
+                        raise CannotEval(f"no attempt number {pos + 1}: the loop test fails after {i} attempt(s)")
+                    if i < pos:
+                        interp.event = w.fill[i]
+                        if run_(L.body).kind not in ("fall", "retry"):
+                            raise CannotEval(f"attempt {i + 1} does not go on to the next one when replayed")
+            interp.reset()
+            interp.event, interp.force = event, force
             o = run_(L.body)
             if o.kind == "fall":
                 o = Out("retry")
+            final = o.kind == "retry" and not goes_on()
             if o.kind == "break-out" or (o.kind == "retry" and final):
                 note = "leaves the loop" if o.kind == "break-out" else "falls out of the loop after the last attempt"
                 o = run_((list(L.orelse) if o.kind == "retry" else []) + tail)
@@ -991,7 +1109,7 @@ def run(chk):
                 obj.fields.clear()
                 obj.fields.update(fields)
         o.sleeps, o.ncalls, o.selected = list(interp.sleeps), interp.ncalls, interp.selected
-        if force is None:
+        if force is None and not probe:
             observed_calls.append(o.ncalls)
         return o
 
@@ -1008,6 +1126,14 @@ def run(chk):
 
     def failed():
         return {"success": False, "weight": 1}
+
+    # representative results of the delegate: (label, value, is dict, success)
+    RET = [("dict success=True", {"success": True, "weight": 1}, True, True), ("dict success=False", {"success": False, "weight": 1}, True, False), ("non-dict result", (1, "ops"), False, True),
+           ("None result", None, False, True), ("empty dict (no 'success' key)", {}, True, True)]
+
+    def probes():
+        """every outcome class of one attempt (the ones that are retried under some setting first)"""
+        return [("return", failed()), exc_event(CE[1], CE[2])] + [exc_event(cls, status) for _, cls, status, _ in RAISED] + [("return", value) for _, value, _, _ in RET]
 
     def positions(w, last):
         if w.n == 0:
@@ -1059,12 +1185,31 @@ def run(chk):
         chk.ob(rule, instance, ok, node, detail, **({"key": key} if key else {}))
         return ok
 
-    bound_names = {n.id for a in L.iter.args for n in ast.walk(a) if isinstance(n, ast.Name)} | {L.target.id}
+    # the counter, what the loop runs over, and every local whose value flows into that (`attempts = range(max_attempts)` before the loop: max_attempts IS the bound, whatever reads it)
+    bound_names = ({n.id for n in ast.walk(L.iter) if isinstance(n, ast.Name)} | target_names) if is_for else set()
+    flows = {}  # local -> names read by the values assigned to it outside the loop
+    for st in walk_body(FL):
+        if isinstance(st, (ast.Assign, ast.AugAssign, ast.AnnAssign)) and getattr(st, "value", None) is not None and not any(a is L for a in source.ancestors(st)):
+            for t in (st.targets if isinstance(st, ast.Assign) else [st.target]):
+                pairs = list(zip(t.elts, st.value.elts)) if isinstance(t, (ast.Tuple, ast.List)) and isinstance(st.value, (ast.Tuple, ast.List)) and len(t.elts) == len(st.value.elts) else [(t, st.value)]
+                for tt, vv in pairs:
+                    for x in ast.walk(tt):
+                        if isinstance(x, ast.Name) and isinstance(x.ctx, ast.Store):
+                            flows.setdefault(x.id, set()).update(y.id for y in ast.walk(vv) if isinstance(y, ast.Name))
+    work = list(bound_names)
+    while work:
+        for y in flows.get(work.pop(), ()):
+            if y not in bound_names and y in flows and y not in params_of(FL):
+                bound_names.add(y)
+                work.append(y)
     # (a store on an attribute of one of these names - a settings object that carries the bound - counts as well)
     rebound = [n for st in L.body for n in ast.walk(st) if isinstance(n.ctx if isinstance(n, (ast.Name, ast.Attribute)) else None, (ast.Store, ast.Del))
                and (n.id if isinstance(n, ast.Name) else (n.value.id if isinstance(n.value, ast.Name) else None)) in bound_names]
+    # (a `while` loop re-binds its counter by design: there every evaluated attempt replays the earlier iterations, so what the loop body does to the counter and the bound IS evaluated -
+    # by the bound, last-attempt and classification obligations below)
     chk.ob("O16.1", "for attempt in range(...): the counter and the bound are not re-bound inside the loop", not rebound, rebound[0] if rebound else L,
-           u(L.iter) + (f"; `{u(rebound[0])}` is assigned in the loop body" if rebound else ""))
+           (u(L.iter) if is_for else f"while {short(L.test, 40)}: the state the loop carries from attempt to attempt is replayed, not assumed")
+           + (f"; `{u(rebound[0])}` is assigned in the loop body" if rebound else ""))
 
     def ob_bound():
         bad = []
@@ -1073,7 +1218,7 @@ def run(chk):
             w = world(params, ctor)
             if w.n != want:
                 bad.append(f"{params}{' on a retry-until-success wrapper' if ctor else ''}: {'unbounded' if w.unbounded else w.n} attempt(s), expected {want}")
-        return not bad, "; ".join(bad[:2]) or f"range({', '.join(u(a) for a in L.iter.args)}) has retries + 1 elements for retries in (default, 0, 1, 3, 5)"
+        return not bad, "; ".join(bad[:2]) or f"`{short(L.iter if is_for else L.test, 60)}` makes retries + 1 attempts for retries in (default, 0, 1, 3, 5)"
 
     decided("O16.1", "max_attempts == retries + 1 (default 0 retries)", L, ob_bound)
 
@@ -1198,9 +1343,7 @@ def run(chk):
                 chk.ob("O16.3", f"sleep before retrying after {label}", ok, o.selected[0] if o.selected else T,
                        "awaits sleep(<retry-wait-period>)" if ok else f"retries without awaiting the retry-wait-period (awaited sleeps: {[s_[0] for s_ in o.sleeps]}, configured {WAIT})",
                        key=f"{_R}:Retry.__call__:sleep:{label}|{last}|{rot}")
-    # return outcomes; representative results of the delegate: (label, value, is dict, success)
-    RET = [("dict success=True", {"success": True, "weight": 1}, True, True), ("dict success=False", {"success": False, "weight": 1}, True, False), ("non-dict result", (1, "ops"), False, True),
-           ("None result", None, False, True), ("empty dict (no 'success' key)", {}, True, True)]
+    # return outcomes
     for label, value, isdict, success in RET:
         for last, roe_ in itertools.product([False, True], repeat=2):
             want = "retry" if (isdict and not success and roe_ and not last) else "return"
@@ -1372,7 +1515,21 @@ def run(chk):
         f = ptab.method(pci, "params")
         if f is None:
             raise AnchorMissing(f"{cname} has no params()")
-        # params() together with the helper methods it calls (self.m(), MRO-resolved)
+        mro = ptab.mro(pci)
+
+        def callee(n, g):
+            """the method that a call in g runs: self.m() (MRO-resolved from the registered class), super().m() (from the class after the one that defines g)"""
+            if not (isinstance(n, ast.Call) and isinstance(n.func, ast.Attribute)):
+                return None
+            recv = n.func.value
+            if isinstance(recv, ast.Name) and recv.id == (params_of(g) or [""])[0]:
+                return ptab.method(pci, n.func.attr)
+            if isinstance(recv, ast.Call) and isinstance(recv.func, ast.Name) and recv.func.id == "super" and not recv.args:
+                at = next((i for i, c_ in enumerate(mro) if any(v is g for v in c_.methods.values())), None)
+                return next((c_.methods[n.func.attr] for c_ in mro[at + 1:] if n.func.attr in c_.methods), None) if at is not None else None
+            return None
+
+        # params() together with the helper methods it calls (self.m() and super().m(), MRO-resolved)
         fs, work, seen = [], [f], set()
         while work:
             g = work.pop()
@@ -1380,16 +1537,53 @@ def run(chk):
                 continue
             seen.add(id(g))
             fs.append(g)
-            for n in walk_body(g):
-                if isinstance(n, ast.Call) and isinstance(n.func, ast.Attribute) and isinstance(n.func.value, ast.Name) and n.func.value.id == (params_of(g) or [""])[0]:
-                    m = ptab.method(pci, n.func.attr)
-                    if m is not None:
-                        work.append(m)
+            work += [m for m in (callee(n, g) for n in walk_body(g)) if m is not None]
         all_fw = any(is_self_params(n, (params_of(g) or [""])[0]) for g in fs for n in walk_body(g))
         keys = {k.value for g in fs for n in walk_body(g) if isinstance(n, ast.Dict) for k in n.keys if isinstance(k, ast.Constant)}
         keys |= {n.slice.value for g in fs for n in walk_body(g) if isinstance(n, ast.Subscript) and isinstance(n.ctx, ast.Store) and isinstance(n.slice, ast.Constant)}
         ok_ = all_fw or RETRY_KEYS <= keys
-        owner = next((c_.name for c_ in ptab.mro(pci) if "params" in c_.methods), cname)
+        owner = next((c_.name for c_ in mro if "params" in c_.methods), cname)
+        if not ok_:
+            # "does not forward" is a verdict only when every key of the returned mapping is VISIBLE (a dict display with literal keys, extended by update() with such displays / by
+            # results of followed methods / by subscript stores); a result built in any other way (a function of another module, a comprehension, ...) is 'not recognised'
+            def visible(v, g, depth=0):
+                if depth > 4:
+                    return False
+                if isinstance(v, ast.Dict):
+                    return all((k is not None and isinstance(k, ast.Constant)) or (k is None and visible(x, g, depth + 1)) for k, x in zip(v.keys, v.values))
+                if isinstance(v, ast.Call) and isinstance(v.func, ast.Name) and v.func.id == "dict" and len(v.args) <= 1 and all(k.arg for k in v.keywords):
+                    return all(visible(a, g, depth + 1) for a in v.args)
+                if isinstance(v, ast.Call) and isinstance(v.func, ast.Attribute) and v.func.attr == "copy" and not v.args:
+                    return visible(v.func.value, g, depth + 1)
+                m = callee(v, g)
+                if m is not None:
+                    rets = [r for r in walk_body(m) if isinstance(r, ast.Return)]
+                    return bool(rets) and all(r.value is not None and visible(r.value, m, depth + 1) for r in rets)
+                if isinstance(v, ast.Name) and v.id not in params_of(g):
+                    seen_def = False
+                    for x in walk_body(g):
+                        if not (isinstance(x, ast.Name) and x.id == v.id):
+                            continue
+                        par = source.parent(x)
+                        if isinstance(x.ctx, ast.Store):
+                            if isinstance(par, (ast.Assign, ast.AnnAssign)) and getattr(par, "value", None) is not None and (par.target if isinstance(par, ast.AnnAssign) else par.targets[0]) is x \
+                                    and visible(par.value, g, depth + 1):
+                                seen_def = True
+                                continue
+                            return False
+                        if isinstance(par, ast.Return) or isinstance(par, ast.Subscript) or (isinstance(par, ast.Call) and isinstance(par.func, ast.Name) and par.func.id in ("dict", "len")):
+                            continue
+                        if isinstance(par, ast.Attribute) and isinstance(source.parent(par), ast.Call) and source.parent(par).func is par:
+                            c_ = source.parent(par)
+                            if par.attr in ("get", "items", "keys", "values", "copy") or (par.attr == "update" and all(k.arg for k in c_.keywords) and all(visible(a, g, depth + 1) for a in c_.args)):
+                                continue
+                        return False
+                    return seen_def
+                return False
+
+            rets = [r for r in walk_body(f) if isinstance(r, ast.Return)]
+            if not (rets and all(r.value is not None and visible(r.value, f, 0) for r in rets)):
+                raise Unrecognised(f"how {owner}.params() builds its result is not recognised (neither the task's parameters nor the retry keys are seen to reach it, but not every key of the result is visible)")
         return ok_, f"{owner}.params() " + ("forwards self._params" if all_fw else ("names every retry key" if ok_ else f"returns only {sorted(keys, key=str)}"))
 
     for op in documented:
@@ -1398,6 +1592,9 @@ def run(chk):
             ok_, why = forwards(cname)
         except AnchorMissing as e:
             chk.unknown("O16.6", f"parameter source class {cname} of `{op}` not found: {e}", pr.tree)
+            continue
+        except Unrecognised as e:
+            chk.unknown("O16.6", f"`{op}`: {e}", ptab.method(ptab.get(cname), "params"))
             continue
         chk.ob("O16.6", f"`{op}`: retry settings reach Retry through {cname}", ok_, ptab.method(ptab.get(cname), "params") or ptab.get(cname).node, why,
                key=f"esrally/track/params.py:{cname}.params:forwards-task-params:{op}")
@@ -1440,6 +1637,8 @@ _POLICY = ("class RetryPolicy:\n    def __init__(self, params, unbounded_by_defa
            "    @property\n    def limit(self):\n        return sys.maxsize if self._unbounded else self._retries + 1\n\n"
            "    def is_last(self, attempt):\n        return attempt + 1 == self.limit\n\n\n")
 _CLS = "class Retry(Runner, Delegator):\n"
+_PS_OLD = ("        p = {}\n        # ensure we pass all parameters...\n        p.update(self._params)\n        p.update(\n            {\n                \"indices\": self.index_definitions,\n"
+           "                \"request-params\": self.request_params,\n            }")
 _NT_UNPACK = "        max_attempts, sleep_time, retry_on_timeout, retry_on_error = _retry_plan(params, self.retry_until_success)\n"
 
 
@@ -1484,7 +1683,29 @@ def _named(name, edits):
     return edits
 
 
+def _while(name, kind, rule, init, test, first, last, end=None, then=None):
+    """the attempt loop as a `while` loop that keeps its own count"""
+    out = [V(name, kind, _R, "        for attempt in range(max_attempts):\n            last_attempt = attempt + 1 == max_attempts\n",
+             f"        {init}\n        while {test}:\n" + (f"            {first}\n" if first else "") + f"            last_attempt = {last}\n", rule)]
+    if end:
+        out.append(V("", kind, _R, "                raise e\n\n    async def __aexit__", f"                raise e\n            {end}\n\n    async def __aexit__", rule))
+    if then:
+        out.append(V("", kind, _R, then[0], then[1], rule))
+    return out
+
+
 _POLICY_NAMES = ("policy.limit", "policy.on_error", "policy.pause", "policy.on_timeout")
+_LOOP = "        for attempt in range(max_attempts):\n            last_attempt = attempt + 1 == max_attempts\n"
+
+
+def _counted(name, kind, rule=None, none="None", unbounded="itertools.count()", bounded="range(max_attempts)", last="max_attempts is not None and attempt + 1 == max_attempts", loop="attempts", extra="", target="attempt"):
+    """the attempt numbers are a value chosen before the loop: an unbounded counter under retry-until-success (no pseudo bound sys.maxsize), a range otherwise (the shape of benign/C16-b9)"""
+    settings = ("        retry_until_success = params.get(\"retry-until-success\", self.retry_until_success)\n        if retry_until_success:\n"
+                f"            max_attempts = {none}\n            attempts = {unbounded}\n            retry_on_error = True\n        else:\n"
+                f"            max_attempts = params.get(\"retries\", 0) + 1\n            attempts = {bounded}\n            retry_on_error = params.get(\"retry-on-error\", False)\n"
+                "        sleep_time = params.get(\"retry-wait-period\", 0.5)\n        retry_on_timeout = params.get(\"retry-on-timeout\", True)\n")
+    return [V(name, kind, _R, "import contextvars\n", "import contextvars\nimport itertools\n", rule), V("", kind, _R, _SETTINGS, settings, rule),
+            V("", kind, _R, _LOOP, f"        for {target} in {loop}:\n            last_attempt = {last}\n{extra}", rule)]
 
 VARIANTS = [
     V("F6: other transport errors swallowed", "break", _R, "                # any other transport error (e.g. a serialization error) is neither a timeout nor a connection error: never retry it\n                raise e",
@@ -1652,7 +1873,42 @@ VARIANTS = [
     V("connection-timeout arm removed without folding it into another arm", "break", _R,
       "            except elasticsearch.exceptions.ConnectionTimeout as e:\n                if last_attempt or not retry_on_timeout:\n                    raise e\n\n"
       "                self.logger.info(\"[%s] has timed out. Retrying in [%.2f] seconds.\", repr(self.delegate), sleep_time)\n                await asyncio.sleep(sleep_time)\n", "", "O16.2"),
+    # ---- hardening round 4: what the loop runs over is a value (range / unbounded counter) chosen before the loop; a bound that only the last-attempt test enforces
+    _counted("retry-until-success runs over itertools.count() with max_attempts = None, the iterable is chosen into a local first", "keep"),
+    _counted("attempt numbers chosen by a conditional expression in the loop header", "keep", loop="(itertools.count() if max_attempts is None else range(max_attempts))"),
+    _counted("unbounded counter in both cases: the last-attempt test alone ends the bounded call", "keep", bounded="itertools.count()"),
+    _counted("1-based unbounded counter in both cases with the matching last-attempt test", "keep", unbounded="itertools.count(1)", bounded="itertools.count(start=1)",
+             last="max_attempts is not None and attempt == max_attempts"),
+    _counted("attempt numbers through enumerate over a descending range of remaining retries", "keep", bounded="enumerate(range(max_attempts - 1, -1, -1))", unbounded="enumerate(itertools.count())",
+             target="attempt, remaining", last="max_attempts is not None and remaining == 0"),
+    _counted("enumerate over a descending range of remaining retries: the last attempt is taken to be the one with one retry left", "break", "O16.", bounded="enumerate(range(max_attempts - 1, -1, -1))",
+             unbounded="enumerate(itertools.count())", target="attempt, remaining", last="max_attempts is not None and remaining == 1"),
+    _counted("iterable chosen into a local: the bounded range forgets the + 1", "break", "O16.", bounded="range(max_attempts - 1)"),
+    _counted("iterable chosen into a local: without a bound every attempt counts as the last one", "break", "O16.1", last="max_attempts is None or attempt + 1 == max_attempts"),
+    _counted("iterable chosen into a local: retry-until-success still runs over a range of the configured retries", "break", "O16.1", none='params.get("retries", 0) + 1', unbounded="range(max_attempts)"),
+    _counted("unbounded counter in both cases, 1-based, with the 0-based last-attempt test", "break", "O16.1", unbounded="itertools.count(1)", bounded="itertools.count(1)"),
+    _counted("unbounded counter in both cases and a last-attempt test that never holds", "break", "O16.1", bounded="itertools.count()", last="max_attempts is not None and attempt == -max_attempts"),
+    _counted("iterable chosen into a local: the bound it was built from is decremented inside the loop", "break", "O16.1", none="sys.maxsize", unbounded="range(max_attempts)",
+             last="attempt + 1 == max_attempts", extra="            max_attempts -= 1\n"),
+    # ---- hardening round 4: the attempt loop as a `while` loop that keeps its own count (every evaluated attempt replays the earlier iterations)
+    _while("while True with a counter advanced at the start of the iteration", "keep", None, "attempt = 0", "True", "attempt += 1", "attempt == max_attempts"),
+    _while("while loop over a counter advanced after the try", "keep", None, "attempt = 0", "attempt < max_attempts", None, "attempt + 1 == max_attempts", end="attempt += 1"),
+    _while("while loop whose test is looser than the last-attempt test (the last attempt always ends the call)", "keep", None, "attempt = 0", "attempt <= max_attempts", None,
+           "attempt + 1 == max_attempts", end="attempt += 1"),
+    _while("while True counting the remaining attempts down", "keep", None, "remaining = max_attempts", "True", "remaining -= 1", "remaining == 0"),
+    _while("while True: the counter is never advanced", "break", "O16.1", "attempt = 1", "True", None, "attempt == max_attempts"),
+    _while("while True: counter starts at 1 and is advanced before the last-attempt test", "break", "O16.1", "attempt = 1", "True", "attempt += 1", "attempt == max_attempts"),
+    _while("while loop over a 0-based counter with a last-attempt test that never holds inside the loop", "break", "O16.", "attempt = 0", "attempt < max_attempts", None,
+           "attempt == max_attempts", end="attempt += 1"),
+    _while("while loop: the retried connection error skips the increment with continue", "break", "O16.", "attempt = 0", "attempt < max_attempts", None, "attempt + 1 == max_attempts", end="attempt += 1",
+           then=("                if last_attempt or not retry_on_timeout:\n                    raise\n                await asyncio.sleep(sleep_time)\n",
+                 "                if last_attempt or not retry_on_timeout:\n                    raise\n                await asyncio.sleep(sleep_time)\n                continue\n")),
+    _while("while loop: the counter is advanced twice per attempt", "break", "O16.1", "attempt = 0", "attempt < max_attempts", "attempt += 1", "attempt == max_attempts", end="attempt += 1"),
     [V("parameter source forwards the task's parameters through a helper method", "keep", "esrally/track/params.py", "        p = {}\n        # ensure we pass all parameters...\n        p.update(self._params)\n        p.update(\n            {\n                \"indices\": self.index_definitions,\n                \"request-params\": self.request_params,\n            }",
        "        p = self._task_params()\n        p.update(\n            {\n                \"indices\": self.index_definitions,\n                \"request-params\": self.request_params,\n            }"),
      V("", "keep", "esrally/track/params.py", "    def _client_params(self):\n", "    def _task_params(self):\n        return dict(self._params)\n\n    def _client_params(self):\n")],
+    [V("parameter source's extracted helper hands on the client parameters only", "break", "esrally/track/params.py", _PS_OLD, _PS_OLD.replace("        p = {}\n        # ensure we pass all parameters...\n        p.update(self._params)\n", "        p = self._task_params()\n"), "O16.6"),
+     V("", "break", "esrally/track/params.py", "    def _client_params(self):\n", "    def _task_params(self):\n        return dict(self._client_params())\n\n    def _client_params(self):\n", "O16.6")],
+    V("parameter source builds on the base class's params() through super()", "keep", "esrally/track/params.py", _PS_OLD,
+      _PS_OLD.replace("        p = {}\n        # ensure we pass all parameters...\n        p.update(self._params)\n", "        p = dict(super().params())\n")),
 ]
